@@ -177,6 +177,7 @@ def run(ctx, mult=1, seed_shift=0, corpus=True):
     for name, b in bins:
         for args, tag in jobs_for(ctx, mult, seed_shift):
             jobs.append((b, args, f"{name}_{tag}"))
+        jobs.append((b, ["corner"], f"{name}_corner"))   # fixed corner scenarios vs std (huge zero-sized vectors -> Box)
     t = time.time()
     with ThreadPoolExecutor(max_workers=14) as ex:
         results = list(ex.map(lambda j: run_one(ctx, j[0], drv, j[1], j[2]), jobs))
@@ -244,6 +245,8 @@ def summarize(ctx, results):
 def plan_text_for(fail, run):
     if fail.get("plan_text"):
         return fail["plan_text"]
+    if fail.get("name", "").startswith("corner-"):
+        return "CORNER\n"
     for r in run.get("results", []):
         if r["trace"] == fail.get("trace") and fail.get("plan") in r["plans"]:
             p = r["plans"][fail["plan"]]
